@@ -33,8 +33,9 @@ type Machine struct {
 	// Mutated: set when a kept request value was found modified (see request()).
 	Mutated string
 	// ReuseRequests: see request(). Set by NewMachine from the scenario (odd IOSeed).
-	ReuseRequests bool
-	reqCache      map[string]*z80.Interrupt
+	ReuseRequests  bool
+	SharedRequests map[string]*z80.Interrupt
+	reqCache       map[string]*z80.Interrupt
 	// SwapMode: 1 = SwapDevices(false) at every boundary, 2 = SwapDevices(true) (host fault, see SwapDevices)
 	SwapMode int
 }
@@ -62,6 +63,13 @@ func (m *Machine) request(i int) *z80.Interrupt {
 		return m.evs[i].Request()
 	}
 	key := m.evs[i].Kind + "/" + m.evs[i].Data
+	if m.SharedRequests != nil {
+		// one value per kind for SEVERAL machines (`var nmi = z80.NMIInterrupt()` used by every core):
+		// the map is filled before the machines start and only read afterwards
+		if q, ok := m.SharedRequests[key]; ok {
+			return q
+		}
+	}
 	if m.reqCache == nil {
 		m.reqCache = map[string]*z80.Interrupt{}
 	}
